@@ -10,11 +10,11 @@ open HickoryVerif HickoryVerif.Pool
 /-! ## hypotheses -/
 
 /-- replies a server suffering only TRANSPORT faults can give: an answer, a stream timeout, an I/O
-error, a reset, busy back-pressure — plus an NXDOMAIN when the server is not trusted for negative
+error, a failing connection attempt, a reset, busy back-pressure — plus an NXDOMAIN when the server is not trusted for negative
 answers.  (Excluded: truncation / case mismatch, which switch the lookup to TCP, and the replies that
 end a lookup by design: trusted NXDOMAIN, NODATA, SERVFAIL, REFUSED.) -/
 def benignReply (trust : Bool) : Reply → Bool
-  | .ans | .to | .io | .rst | .busy => true
+  | .ans | .to | .io | .rst | .busy | .cf => true
   | .nx => !trust
   | _ => false
 
